@@ -1132,7 +1132,7 @@ def C20(V, tier):
                 info[cur]["probe_block"].setdefault(e["id"], int(e["at"].split(".")[0]))
             elif ev == "worker" and e.get("what") == "crash":
                 b, h, _r = (int(x) for x in e["at"].split("."))
-                info[cur]["crashed"].append({"b": b, "h": h})
+                info[cur]["crashed"].append({"b": b, "h": h, "c": e["at"]})
     recs = []
     triggered = 0
     for jid, r in results.items():
@@ -1150,7 +1150,9 @@ def C20(V, tier):
             continue
         d0 = g["dumps"][0]
         edges = [{"from": b["id"], "to": n[0]} for b in d0["blocks"] for n in b["next"]]
-        replicas = [{"b": b["id"], "h": x["host"]} for b in d0["blocks"] for x in b["replicas"]]
+        replicas = [{"b": b["id"], "h": x["host"], "c": x["coord"]} for b in d0["blocks"] for x in b["replicas"]]
+        links = sorted({(l[0], l[1]) for d in g["dumps"] for l in d["links"]})
+        links = [{"from": a, "to": b} for a, b in links]
         sinks = []
         for h in r.get("hosts", []):
             for sk in h.get("sinks", []):
@@ -1166,7 +1168,7 @@ def C20(V, tier):
         failed = [c for c in inf["crashed"] if c["b"] == cb]
         if not failed:
             continue
-        recs.append({"ev": "case", "id": jid, "crashed": failed, "edges": edges, "replicas": replicas,
+        recs.append({"ev": "case", "id": jid, "crashed": failed, "edges": edges, "links": links, "replicas": replicas,
                      "hosts": hosts, "sinks": sinks,
                      "hung": bool(r.get("hang")) or r.get("lingering", 0) > 0})
         recs.append({"ev": "done", "id": jid})
